@@ -2,3 +2,4 @@
 
 from simverif.engines import dssim  # noqa: F401
 from simverif.engines import irsim_engine  # noqa: F401
+from simverif.engines import solversim  # noqa: F401
